@@ -306,6 +306,13 @@ func (w *World) execHostile(stepIdx int, st *Step) {
 			hd, p, sig, ok := splitJWS(jwsStr)
 			pv, perr := ref.Parse(p)
 			pm, isObj := pv.(map[string]any)
+			if sd, isCreate := base["suffixData"].(map[string]any); isCreate && r.Chance(1, 2) {
+				out := ref.Clone(base).(map[string]any)
+				nsd := ref.Clone(sd).(map[string]any)
+				nsd[core.Pick(r, []string{"deltaHash", "recoveryCommitment"})] = ref.B64(ref.MultihashBytes(core.Pick(r, []uint{ref.SHA256, ref.SHA512}), r.Bytes(core.Pick(r, []int{0, 1, 16, 31, 33, 63, 65}))))
+				out["suffixData"] = nsd
+				return ref.JCS(out)
+			}
 			if !ok || perr != nil || !isObj {
 				return ref.JCS(corruptJSON(r, base, r.Range(1, 3)))
 			}
@@ -318,6 +325,10 @@ func (w *World) execHostile(stepIdx int, st *Step) {
 				}
 				if r.Chance(1, 6) {
 					return core.Pick(r, hostileScalars)
+				}
+				if r.Chance(1, 3) {
+					// a well-formed multihash of a configured code whose digest has another length than the algorithm's
+					return ref.B64(ref.MultihashBytes(core.Pick(r, []uint{ref.SHA256, ref.SHA512}), r.Bytes(core.Pick(r, []int{0, 1, 16, 31, 33, 63, 65}))))
 				}
 				return ref.B64(r.Bytes(n))
 			}
@@ -335,6 +346,10 @@ func (w *World) execHostile(stepIdx int, st *Step) {
 			}
 			out := ref.Clone(base).(map[string]any)
 			out["signedData"] = joinJWS(hd, ref.JCS(pm), sig)
+			if r.Chance(1, 4) {
+				// ... and the hash-valued members of the request itself
+				out[core.Pick(r, []string{"revealValue", "didSuffix"})] = blob()
+			}
 			return ref.JCS(out)
 		default:
 			return ref.JCS(corruptJSON(r, base, r.Range(1, 3)))
